@@ -123,7 +123,7 @@ def gen_case(seed, tier):
         "skew": rng.choice(["0", "0", "+fudge", "-fudge", "+fudge+1", "-fudge-1", "big"]),
         "flips": "all" if tier == "thorough" and rng.random() < 0.3 else 250,
         "identity": rng.choice(["secret", "keyname_keyring", "keyname_key", "algorithm", "request_mac", "no_request_mac", "tsig_error"]),
-        "structure": rng.choice(["stripped", "not_last", "duplicated", "ttl", "class"]),
+        "structure": rng.choice(["stripped", "not_last", "duplicated", "ttl", "class", "mac_prefix", "mac_prefix", "mac_extended"]),
         "nenv": rng.choice([1, 2, 3, 5, 8]),
         "unsigned_mask": rng.randrange(256),
         "envfault": rng.choice(["none", "none", "drop", "dup", "reorder", "flip_unsigned", "flip_signed", "jump_clock", "last_unsigned"]),
@@ -398,6 +398,19 @@ def _scenario_structure(case, res, log):
         off = sf["rdata_start"] - 6
         b[off : off + 4] = struct.pack("!I", [1, 300, 2**31, 2**32 - 1][case["flipbit"] % 4])
         w = bytes(b)
+    elif kind in ("mac_prefix", "mac_extended"):
+        # a forger who cannot compute the MAC sends a re-encoded TSIG RR whose MAC is only a
+        # prefix of (or longer than) the genuine one, on a message that may also be altered
+        full = sf["mac"]
+        if kind == "mac_prefix":
+            k = [0, 1, 4, len(full) // 2, len(full) - 1][case["flipbit"] % 5]
+            newmac = full[:k]
+        else:
+            newmac = full + b"\x00"
+        body = rw
+        if case["envpos"] % 2:
+            body = _flip(rw, 16 + case["flipbit"] % ((len(rw) - 2) * 8))
+        w = T.append_tsig(body, T.tsig_rr(kn, alg, case["time"], case["fudge"], newmac, sf["orig_id"]))
     else:
         b = bytearray(signed)
         off = sf["rdata_start"] - 8
